@@ -54,8 +54,11 @@ func cfgJSON(c mcp.VerifRetryConfig) map[string]any {
 func runRetry(c *hk.Ctx) {
 	retryValidate(c)
 	retryClassify(c)
+	retryClassifyReal(c)
 	retryExecute(c)
 	retryEndToEnd(c)
+	retryConnectE2E(c)
+	retryOptionsAhead(c)
 	if c.Thorough() {
 		retryOverflowReachable(c)
 	}
